@@ -263,6 +263,46 @@ Definition cw_create_config (allf cfgf : list cw_bytes) (nc : bool) (ty full : c
       else None
   end.
 
+(* Notification / Dependency / ScheduledDowntime / Comment / Downtime: `host!name` or `host!service!name`
+   (`tokens.size() < 2` throws, with more than two tokens the first three are used).  hk / sk are the attribute
+   names of the two leading parts (host_name, service_name; child_host_name, child_service_name for Dependency). *)
+Definition cw_src_name3_exact : bool := match f_cw_composite_name_exact with Some b => b | None => false end.
+(* exact = false: the code as pinned (further parts dropped, an empty middle part accepted and then ignored by MakeName);
+   exact = true: at most three parts and a non-empty middle part are required *)
+Definition cw_name_parts3_m (exact : bool) (full : cw_bytes) : option (cw_bytes * cw_bytes * option cw_bytes) :=
+  match cw_split 33 full [] with
+  | h :: n :: [] => Some (n, h, None)
+  | h :: sv :: n :: rest =>
+      if exact then (match rest with [] => if cw_beq sv [] then None else Some (n, h, Some sv) | _ => None end)
+      else Some (n, h, Some sv)
+  | _ => None
+  end.
+Definition cw_name_parts3 := cw_name_parts3_m cw_src_name3_exact.
+Definition cw_all_attrs3 (hk sk h : cw_bytes) (sv : option cw_bytes) (attrs : cw_dlist) (version : cw_value) : cw_dlist :=
+  let a0 := cw_dcopy attrs DNil in
+  let a1 := cw_dset hk (CwStr h) a0 in
+  let a2 := match sv with Some x => cw_dset sk (CwStr x) a1 | None => a1 end in
+  cw_dset cw_s_version version (cw_dremove cw_s_name (cw_dset cw_s_name CwNull a2)).
+Definition cw_create_config3 (allf cfgf : list cw_bytes) (hk sk ty full : cw_bytes) (ign : bool)
+           (imports : list cw_bytes) (attrs : cw_dlist) (version : cw_value) : option cw_bytes :=
+  match cw_name_parts3 full with
+  | None => None
+  | Some (name, h, sv) =>
+      if cw_attrs_allowed allf cfgf (cw_dcopy attrs DNil) then
+        cw_emit_item ty name ign imports (cw_all_attrs3 hk sk h sv attrs version)
+      else None
+  end.
+(* the name under which such a declaration registers its object (NameComposer::MakeName) *)
+Definition cw_effective_name3 (hk sk name : cw_bytes) (all : cw_dlist) : option cw_bytes :=
+  match cw_dget hk all with
+  | Some (CwStr h) =>
+      match cw_dget sk all with
+      | Some (CwStr sv) => Some (h ++ 33 :: (if cw_beq sv [] then name else sv ++ 33 :: name))
+      | _ => Some (h ++ 33 :: name)
+      end
+  | _ => None
+  end.
+
 (* ---------------------------------------------------------------- lexer *)
 Inductive cw_tok :=
 | CwTStr (s : cw_bytes)
